@@ -14,10 +14,12 @@ import (
 	"testing/synctest"
 	"time"
 
+	"github.com/patrickmn/go-cache"
 	"google.golang.org/protobuf/proto"
 
 	"github.com/scionproto/scion/pkg/addr"
 	cppb "github.com/scionproto/scion/pkg/proto/control_plane"
+	cryptopb "github.com/scionproto/scion/pkg/proto/crypto"
 	"github.com/scionproto/scion/pkg/scrypto/cppki"
 	"github.com/scionproto/scion/private/storage/db"
 	"github.com/scionproto/scion/private/storage/trust/sqlite"
@@ -56,6 +58,12 @@ type c36Chain struct {
 	key    string
 	cert   *pkigen.Cert
 	chain  []*x509.Certificate
+}
+
+type c36Signed struct {
+	msg  *cryptopb.SignedMessage
+	ok   bool
+	skid string
 }
 
 type c36Ring []crypto.Signer
@@ -436,6 +444,7 @@ func c36Case(r *mc.Run, ia addr.IA, tl *c36Timeline, ringName string, ring c36Ri
 		}
 	}
 	// ---- sign / verify now ----
+	var signedNow []c36Signed
 	var lagDB *sqlite.DB
 	var lagFetcher *c36Fetcher
 	body := []byte("c36 message")
@@ -459,6 +468,7 @@ func c36Case(r *mc.Run, ia addr.IA, tl *c36Timeline, ringName string, ring c36Ri
 			continue
 		}
 		got, verr := ver.Verify(ctx, msg, ad...)
+		signedNow = append(signedNow, c36Signed{msg, verr == nil, fmt.Sprintf("%x", p.s.SubjectKeyID[:4])})
 		if verr != nil {
 			viol("signature-does-not-verify", fmt.Sprintf("message of signer (expiry %v, in grace %v) does not verify with a verifier bound to %v: %v", p.exp, p.s.InGrace, ia, verr))
 		} else if string(got.Body) != string(body) {
@@ -514,6 +524,36 @@ func c36Case(r *mc.Run, ia addr.IA, tl *c36Timeline, ringName string, ring c36Ri
 					verr, f.calls, lerr))
 			case lerr == nil:
 				r.Outcome("verify:ok-after-catching-up")
+			}
+		}
+	}
+	// ---- the same messages through ONE verifier with the chain cache (production configuration), in every order of
+	// the signers (and each message twice): the cache must never change a verdict ----
+	if len(signedNow) > 0 {
+		orders := [][]int{}
+		idx := make([]int, len(signedNow))
+		for i := range idx {
+			idx[i] = i
+		}
+		orders = append(orders, append(append([]int{}, idx...), idx...))
+		if len(idx) > 1 {
+			rev := []int{}
+			for i := len(idx) - 1; i >= 0; i-- {
+				rev = append(rev, i)
+			}
+			orders = append(orders, append(append([]int{}, rev...), rev...))
+		}
+		for _, ord := range orders {
+			cv := trust.Verifier{BoundIA: ia, Engine: trust.FetchingProvider{DB: store, Recurser: trust.NeverRecurser{}}, Cache: cache.New(time.Minute, 0)}
+			for step, i := range ord {
+				_, cerr := cv.Verify(ctx, signedNow[i].msg, ad...)
+				r.CaseBulk(1, 1)
+				if (cerr == nil) != signedNow[i].ok {
+					viol("caching-verifier-disagrees", fmt.Sprintf("order %v step %d: message of signer with subject key id %s..: verifier without cache ok=%v, one caching verifier: %v",
+						ord, step, signedNow[i].skid, signedNow[i].ok, cerr))
+				} else if cerr == nil {
+					r.Outcome("verify:ok-with-cache")
+				}
 			}
 		}
 	}
